@@ -50,6 +50,65 @@ func c14r1(r *R) {
 	}
 	r.Ob("C14.R1", "instances").Check(n >= 2, "expected >= 2 accesses to currentCert, found %d", n)
 	locksReleased(r, "C14.R1", "pkg/certwatcher")
+	// the lock is not taken again while it is held: a second RLock behind a waiting writer (a reload) deadlocks the
+	// RWMutex for good — the event loop and every later handshake hang
+	acquires := map[*ssa.Function]bool{}
+	var acq func(fn *ssa.Function, depth int) bool
+	acq = func(fn *ssa.Function, depth int) bool {
+		if fn == nil || fn.Blocks == nil || depth > 3 {
+			return false
+		}
+		if v, ok := acquires[fn]; ok {
+			return v
+		}
+		acquires[fn] = false
+		res := false
+		eachInstr(fn, func(i ssa.Instruction) {
+			cc := callOf(i)
+			if cc == nil {
+				return
+			}
+			switch calleeName(cc) {
+			case "(*sync.RWMutex).RLock", "(*sync.RWMutex).Lock", "(*sync.Mutex).Lock":
+				if len(cc.Args) >= 1 && strings.HasSuffix(c.Expr(cc.Args[0]), "p0."+mf) {
+					res = true
+				}
+			default:
+				if g := staticCallee(cc); g != nil && g.Pkg == fn.Pkg && len(cc.Args) >= 1 && c.Expr(cc.Args[0]) == "p0" && acq(g, depth+1) {
+					res = true
+				}
+			}
+		})
+		acquires[fn] = res
+		return res
+	}
+	oR := r.Ob("C14.R1", "no-reentrant-lock")
+	for _, fn := range c.FuncsIn("pkg/certwatcher") {
+		hl := c.locksHeld(fn)
+		eachInstr(fn, func(i ssa.Instruction) {
+			cc := callOf(i)
+			if cc == nil || len(hl[i]) == 0 {
+				return
+			}
+			if _, isDefer := i.(*ssa.Defer); isDefer {
+				return
+			}
+			g := staticCallee(cc)
+			if g == nil || g.Pkg != fn.Pkg || len(cc.Args) < 1 {
+				return
+			}
+			holdsOwn := false
+			for k := range hl[i] {
+				if k == c.Expr(cc.Args[0])+"."+mf {
+					holdsOwn = true
+				}
+			}
+			if holdsOwn && acq(g, 0) {
+				oR.AtI(i).Fail("%s calls %s while holding the watcher's lock, and %s takes that lock again: with a reload waiting for the write lock in between, the RWMutex deadlocks", funcName(fn), funcName(g), funcName(g))
+			}
+		})
+	}
+	oR.OK("no call made under the watcher's lock takes it again")
 }
 
 // locksReleased: every Lock/RLock in the given packages is released on all paths to return (no lock leak): the matching
